@@ -135,7 +135,7 @@ def main():
         "setup_cmd": "./setup.sh",
         "hooks": {
             "guard": "verif",
-            "enable": "go build -tags verif -overlay /verif/work/overlay.json (overlay generated from /repo's working tree by tools/mkoverlay; nothing is committed to /repo)",
+            "enable": "go build -tags verif -overlay /verif/work/overlay.json (overlay generated from /repo's working tree by tools/mkoverlay: map ranges -> vhook.Keys, os/exec -> vexec shim, os file functions -> recording wrappers, vhook.Step() in the VM dispatch loop, a generated init() per package registering its package-level variables, injected packages vhook/vexec/vexp/refawk/bcverify and interp/verif_dump.go; nothing is committed to /repo)",
             "baseline_off_cmd": "cd /repo && GOFLAGS=-mod=mod go test -json -vet=off -count=1 -timeout 25m ./...",
             "source_commits": [],
             "add_only": True,
@@ -146,7 +146,7 @@ def main():
         ],
         "checks": checks,
         "not_applicable": [{"property_id": id, "reason": NOT_YET} for id in ALL if id not in CHECKS],
-        "notes": "All checks rebuild from /repo's working tree on every invocation (./check). KNOWN_FINDINGS.txt + known/*.wit list genuine defects recorded rather than repaired.",
+        "notes": "C19 additionally builds harness/cmd/vrace with -race (supplementary free-running pass). All checks rebuild from /repo's working tree on every invocation (./check). KNOWN_FINDINGS.txt + known/*.wit list genuine defects recorded rather than repaired.",
     }
     json.dump(m, open("/verif/MANIFEST.json", "w"), indent=1)
     print("MANIFEST.json: %d checks, %d not_applicable" % (len(checks), len(m["not_applicable"])))
